@@ -28,6 +28,15 @@ pub fn label_search(l: &Labels, out: &mut Vec<&'static str>) {
     if l.backjumps >= 1 {
         out.push("backjump>=1");
     }
+    if l.decisions >= 3 {
+        out.push("decisions>=3");
+    }
+    if l.decisions >= 6 {
+        out.push("decisions>=6");
+    }
+    if l.learnt >= 4 {
+        out.push("learnt>=4");
+    }
 }
 
 // =============================================================================== C01
